@@ -33,7 +33,11 @@ def gen_scene(rng, small=True, kinds=None, multi_dir=None, n_bands=None, att_zer
                       for _ in range(6)]
             kind = 'arbitrary-tables'
     c = float(rng.uniform(330, 350))
-    dt = float(rng.choice([1e-3, 2e-3, 4e-3]))
+    dt = float(rng.choice([1e-3, 2e-3, 4e-3, 3e-3, 1.3e-3]))
+    if rng.random() < 0.25:
+        # normalised units: a resolution whose reciprocal is far from an integer (1/dt = 3.33, 2.5, 6.67, 1.43)
+        c = float(rng.uniform(0.8, 1.3))
+        dt = float(rng.choice([0.3, 0.4, 0.15, 0.7]))
     diag = float(np.linalg.norm(sides))
     K = int(rng.integers(0, 4))
     long_bins = int(np.ceil((K + 3) * diag / c / dt)) + 3
